@@ -19,10 +19,24 @@ import (
 func opReqWrite(a []string) []string {
 	var r protocol.Request
 	proxy := a[0] == "1"
-	var body []byte
-	var pieces [][]byte
-	streamDecl := -2
-	for _, t := range a[1:] {
+	applyReqScript(&r, a[1:])
+	var buf bytes.Buffer
+	w := network.NewWriter(&buf)
+	var err error
+	if proxy {
+		err = req.ProxyWrite(&r, w)
+	} else {
+		err = req.Write(&r, w)
+	}
+	if err == nil {
+		err = w.Flush()
+	}
+	return reqDumpTokens(&r, buf.Bytes(), err != nil)
+}
+
+// applyReqScript applies the script tokens to r through the public request API.
+func applyReqScript(r *protocol.Request, toks []string) {
+	for _, t := range toks {
 		switch strings.SplitN(t, ":", 2)[0] {
 		case "M":
 			r.SetMethod(f(t, 1))
@@ -30,6 +44,10 @@ func opReqWrite(a []string) []string {
 			r.SetRequestURI(f(t, 1))
 		case "Q":
 			r.URI().QueryArgs().Add(f(t, 1), f(t, 2))
+		case "QP": // read access only: materialises the parsed query arguments
+			r.URI().QueryArgs().Peek(f(t, 1))
+		case "DPN":
+			r.URI().DisablePathNormalizing = true
 		case "H":
 			r.Header.Set(f(t, 1), f(t, 2))
 		case "HA":
@@ -37,17 +55,15 @@ func opReqWrite(a []string) []string {
 		case "HO":
 			r.SetHost(f(t, 1))
 		case "B":
-			body = []byte(f(t, 1))
-			r.SetBody(body)
+			r.SetBody([]byte(f(t, 1)))
 		case "BS":
 			p := strings.Split(t, ":")
-			streamDecl, _ = strconv.Atoi(p[1])
+			streamDecl, _ := strconv.Atoi(p[1])
 			ps := ""
 			if len(p) > 2 {
 				ps = p[2]
 			}
-			pieces = parsePieces(ps)
-			r.SetBodyStream(&piecesReader{append([][]byte(nil), pieces...)}, streamDecl)
+			r.SetBodyStream(&piecesReader{parsePieces(ps)}, streamDecl)
 		case "PA":
 			r.PostArgs().Add(f(t, 1), f(t, 2))
 		case "CC":
@@ -60,20 +76,12 @@ func opReqWrite(a []string) []string {
 			r.Header.Trailer().Set(f(t, 1), f(t, 2)) //nolint:errcheck
 		}
 	}
-	var buf bytes.Buffer
-	w := network.NewWriter(&buf)
-	var err error
-	if proxy {
-		err = req.ProxyWrite(&r, w)
-	} else {
-		err = req.Write(&r, w)
-	}
-	if err == nil {
-		err = w.Flush()
-	}
-	wire := buf.Bytes()
+}
+
+// reqDumpTokens: <wire> <err 0|1> <header state dump…> I <method> <post args> N <net/http's reading of the wire…>
+func reqDumpTokens(r *protocol.Request, wire []byte, failed bool) []string {
 	s := protocol.VerifReqHeaderDump(&r.Header)
-	out := []string{hx(wire), b2i(err != nil), hx(s.Method), hx(s.RequestURI), hx(s.UserAgent), hx(s.Host), hx(s.ContentType), b2i(s.NoDefaultContentType),
+	out := []string{hx(wire), b2i(failed), hx(s.Method), hx(s.RequestURI), hx(s.UserAgent), hx(s.Host), hx(s.ContentType), b2i(s.NoDefaultContentType),
 		hx(s.ContentLengthBytes), b2i(s.ConnectionClose)}
 	out = append(out, kvDump(s.H)...)
 	out = append(out, namesDump(s.Trailer)...)
